@@ -9,6 +9,10 @@ TEXT = {
          "Trusted: Coq kernel, the translator and Base/Prims.v (meaning of np.array_split / int(np.ceil(a/b)); exact for num_records < 2^53), extraction (ExtrOcamlBasic), the harness."),
  "C09": ("Coq theorems csi_parse_serialise / tbi_parse_serialise (the byte-level reader inverts an independent specification serialiser for every well-formed index: any contigs/bins/chunks/min_shift/depth, with or without pseudo-bins and trailing count), counts_rule, bad-magic rejection, and level_unique / first_locus_spec / file_offset_spec for every depth >= 0 about the TRANSLATED bin helpers; the reader model is tied to read_csi/read_tabix by a differential run over htslib-written, re-serialised and malformed indexes, with counts compared to the records actually in the file.",
          "Trusted: Coq kernel, translator (bin helpers), extraction, harness; htslib's index writer and Python's gzip are exercised only differentially; the byte-level reader model is hand-written and tied by correspondence."),
+ "C10": ("Coq theorems min_int_dtype_fits_minimal / min_int_dtype_errors about the TRANSLATED core.min_int_dtype (narrowest of i1..i8 containing [lo,hi]; the two error kinds), sentinels_representable, generated_schema_fits (every stored integer and both sentinels lie inside the generated dtype, so the encode-time cast is the identity), contig_dtype_fits, generated_shape_fits (inner dimension = max_number, ranks agree), widening_preserves_values; the schema model is tied to VcfField.smallest_dtype / ZarrArraySpec.from_field / VcfZarrSchema.generate by a differential run on generated summaries, and end to end the generated schema is checked against every value in the intermediate store, through a JSON round trip, and through edited schemas (dropped subsets, widened dtypes, compressor / chunk edits).",
+         "Trusted: Coq kernel, translator (min_int_dtype), extraction, harness. The JSON round trip and 'user schema honoured' clauses are decided by the differential run on the implementation, not by a theorem (partial)."),
+ "C13": ("Coq theorem overlap_check_complete: after sorting by (contig index, start) the TRANSLATED check_overlapping_partitions accepts exactly the partition lists in which no two partitions intersect on a contig (iff, for any number of partitions and any file order), accepted_sorted, unset_end_never_accepted, duplicate_path_rejected, incompatible_header_rejected, reserved_info/format_name_rejected (incl. the 'length' clash via array creation), undeclared_filter_rejected; tied by in-process differential on generated interval sets and end-to-end conversions of cut file sets, header perturbations, reserved names and undeclared filters ('no finished store after an error' checked).",
+         "Trusted: Coq kernel, translator (check_overlapping_partitions), extraction, harness; header equality is dataclass equality of the scanned metadata (modelled as an opaque id); zarr's refusal to create an existing array."),
 }
 
 def main():
